@@ -1,5 +1,38 @@
 import WuffsVerif.Common.Line
-/-! Line driver for C04 — stub, not built yet. -/
-open WuffsVerif.Line
+import WuffsVerif.Model.WSem
+/-! Line driver for C04.  Stateful ops:
 
-def main : IO Unit := runPure (fun _ => "bad-op")
+  case <id> <serialised typed AST of one struct + its methods>   -> init ok | bad-program
+  call <method> [<arg>=<int>]*                                    -> r <ret> | <field values>
+                                                                     (or `undef:…` / `unsupported:…`)
+-/
+open WuffsVerif WuffsVerif.Line WuffsVerif.WSem
+
+structure DSt where
+  prog : Option Prog := none
+  st : St := { fields := [] }
+
+def parseArg (s : String) : Option (String × Val) :=
+  match s.splitOn "=" with
+  | [k, v] => (v.toInt?).map (fun i => (k, Val.int i))
+  | _ => none
+
+def c04Step (d : DSt) (l : List String) : DSt × String :=
+  match l with
+  | "case" :: _id :: toks =>
+    match (parseTree toks).bind loadProg with
+    | some p => ({ prog := some p, st := initSt p }, "init ok")
+    | none => ({}, "bad-program")
+  | "call" :: m :: args =>
+    match d.prog with
+    | none => (d, "bad-op")
+    | some p =>
+      match p.funcs.find? (fun f => f.name == m), args.mapM parseArg with
+      | some f, some as =>
+        match callPublic p d.st f as with
+        | .ok (st', v) => ({ d with st := st' }, s!"r {showVal v} | {showSt p st'}")
+        | .error e => (d, e)
+      | _, _ => (d, "bad-op")
+  | _ => (d, "bad-op")
+
+def main : IO Unit := run ({} : DSt) c04Step
